@@ -610,13 +610,13 @@ package plenccodec
 //@   safety C05
 //@   assigns nothing
 //@   ensures[C05] wfsum() && len(tag) == 0 ==> result == psum(len(c.fields))
-//@   ensures[C05] wfsum() && len(tag) != 0 ==> result == len(tag) + vlen(uint64(psum(len(c.fields)))) + psum(len(c.fields))
+//@   ensures[C05,C01,C09] wfsum() && len(tag) != 0 ==> result == len(tag) + vlen(uint64(psum(len(c.fields)))) + psum(len(c.fields))
 
 //@ func plenccodec.*StructCodec.Append
 //@   safety C05 C11
 //@   assigns nothing
 //@   ensures[C05] wfsum() ==> len(result) == len(data) + @Size(c, ptr, tag)             # the codec law for structs
-//@   ensures[C05,C02] wfsum() && len(tag) != 0 ==> at(result, len(data) + len(tag), venc(uint64(psum(len(c.fields)))), 10)   # the length prefix is the body size
+//@   ensures[C05,C02,C01,C09] wfsum() && len(tag) != 0 ==> at(result, len(data) + len(tag), venc(uint64(psum(len(c.fields)))), 10)   # the length prefix is the body size: a tagged struct is always written, also when every field is omitted (presence)
 //@   ensures[C05,C02] len(tag) != 0 ==> (forall j int :: 0 <= j && j < len(tag) ==> result[len(data) + j] == tag[j])
 //@   ensures[C06,C11] len(result) >= len(data) && (forall j int :: 0 <= j && j < len(data) ==> result[j] == old(data[j]))
 
